@@ -13,7 +13,7 @@ RULE = ("parser-produced circuits x override dictionaries x pass sequences over 
         "non-trivial = program has a macro call, a let use and an alias or subcircuit; distinct = (S-expression, ov, sequence)")
 ASSUMPTIONS = ["a sequence in which a pass raises JaqalError is 'not applicable' and only counted",
                "reference full meaning from vf/meaning.py"]
-TIERS = {"quick": {"shards": 8, "budget_s": 50}, "thorough": {"shards": 16, "budget_s": 480}}
+TIERS = {"quick": {"shards": 8, "budget_s": 75}, "thorough": {"shards": 16, "budget_s": 480}}
 REQUIRE = {"sequences-judged": 3000, "idempotence-checked": 1000, "parser-flag-combinations": 500, "reparse-checked": 3000,
            "seq-len-4": 300}
 
